@@ -26,6 +26,9 @@ type Bias struct {
 	// identify its series.
 	Churn     int
 	TagValues bool
+	// Simple: one appender at a time, no staleness markers, only open/add/commit/rollback,
+	// db.Compact, head flush and m-mapping (used by the crash check, where restarts are injected).
+	Simple bool
 }
 
 var baseTimes = []int64{0, -5000, 1_000_000, 1 << 40, -(1 << 40), 999_997, -1_000_003}
@@ -86,6 +89,7 @@ type genState struct {
 	// known finding delete-hides-later-ooo-append: requested delete ranges per series
 	deleted map[int][][2]int64
 	tag     bool
+	noStale bool
 }
 
 func (g *genState) closeAll(t *rapid.T) {
@@ -181,6 +185,9 @@ func (g *genState) genValue(t *rapid.T, s int) tm.Val {
 		v = tm.Val{Kind: tm.KFHist, H: rapid.IntRange(0, tm.NumHist-1).Draw(t, "hid")}
 	case 5, 6:
 		v = tm.Val{Kind: tm.KStale}
+		if g.noStale {
+			v = tm.Val{Kind: tm.KFloat, F: math.Float64bits(float64(rapid.IntRange(51, 60).Draw(t, "fsmall2")))}
+		}
 	case 7:
 		v = tm.Val{Kind: tm.KFloat, F: rapid.SampledFrom([]uint64{0, 0x8000000000000000, 0x7ff8000000000001, 0x7ff0000000000000, 0xfff8000000000001}).Draw(t, "fspecial")}
 	default:
@@ -226,6 +233,7 @@ func GenHistory(t *rapid.T, b Bias) History {
 		creator: map[int]int{}, established: map[int]bool{}, staleLock: map[[2]int]bool{}, deleted: map[int][][2]int64{}}
 	g.allowTaint = rapid.IntRange(0, 7).Draw(t, "allowtaint") == 0
 	g.tag = b.TagValues
+	g.noStale = b.Simple
 	g.base = rapid.SampledFrom(baseTimes).Draw(t, "base")
 	g.now = g.base
 	if b.MaxSteps == 0 {
@@ -246,6 +254,9 @@ func GenHistory(t *rapid.T, b Bias) History {
 	} else {
 		table = append(table, wop{"flush", 1}, wop{"mmap", 1})
 	}
+	if b.Simple {
+		table = []wop{{"open", 4}, {"add", 40}, {"commit", 10}, {"rollback", 1}, {"compact", 4}, {"flush", 2}, {"mmap", 2}}
+	}
 	if b.Churn > 0 && !b.HeadOnly {
 		table = append(table, wop{"evictstale", b.Churn}, wop{"evictsel", b.Churn}, wop{"crashreopen", b.Churn})
 	}
@@ -260,6 +271,9 @@ func GenHistory(t *rapid.T, b Bias) History {
 		switch k {
 		case "open":
 			slot := rapid.IntRange(0, 2).Draw(t, "slot")
+			if b.Simple {
+				slot = 0
+			}
 			if g.apps[slot] != nil {
 				continue
 			}
